@@ -29,17 +29,14 @@ class InducedSet:
         "Induced set cannot be computed\n"+
         "Line is not connected to a GFA instance\n"+
         "Line: {}".format(self))
-    if self.__dict__.get("_computing_induced_set", False):
-      raise gfapy.RuntimeError(
-        "Induced set cannot be computed; the group contains itself\n"+
-        "Line: {}".format(self))
-    self.__dict__["_computing_induced_set"] = True
-    try:
-      return self._compute_induced_segments_set()
-    finally:
-      self.__dict__["_computing_induced_set"] = False
+    # the nested sets are computed first, each of them once
+    memo = {}
+    postorder = gfapy.line.group.Ordered._nested_groups_postorder
+    for grp in postorder(self, gfapy.line.group.Unordered, "Induced set"):
+      memo[id(grp)] = grp._compute_induced_segments_set(memo)
+    return memo[id(self)]
 
-  def _compute_induced_segments_set(self):
+  def _compute_induced_segments_set(self, memo):
     segments_set = list()
     for item in self.items:
       if isinstance(item, str):
@@ -58,13 +55,11 @@ class InducedSet:
       elif isinstance(item, gfapy.line.group.Ordered):
         self._check_induced_set_elem_connected(item)
         subset = item.captured_segments
-        assert(subset)
         for elem in subset:
           segments_set.append(elem.line)
       elif isinstance(item, gfapy.line.group.Unordered):
         self._check_induced_set_elem_connected(item)
-        subset = item.induced_segments_set
-        assert(subset)
+        subset = memo[id(item)]
         for elem in subset:
           segments_set.append(elem)
       elif isinstance(item, gfapy.line.Unknown):
